@@ -228,3 +228,111 @@ pub fn arb_var(n: usize) -> BoxedStrategy<usize> {
     }
     prop_oneof![1 => 0..6usize, 1 => 6..n].boxed()
 }
+
+// ---------------------------------------------------------------------------------------------
+// strings for the hex parser (C09, C02)
+
+pub const ODD_CHARS: [char; 22] = [
+    '+', '-', ' ', 'g', 'x', 'G', 'X', '_', '\0', '\n', 'A', 'B', 'C', 'D', 'E', 'F', 'é', 'ß', '€', '😀',
+    '０', 'ｆ',
+];
+
+fn arb_char() -> BoxedStrategy<char> {
+    prop_oneof![
+        3 => (0usize..ODD_CHARS.len()).prop_map(|i| ODD_CHARS[i]),
+        2 => (0u32..16).prop_map(|d| std::char::from_digit(d, 16).unwrap()),
+        1 => any::<char>(),
+    ]
+    .boxed()
+}
+
+/// char position in a string of `len` chars, with extra weight on multiples of 16 (each 16-digit
+/// chunk is parsed separately by the library) and on both ends
+fn arb_pos(len: usize) -> BoxedStrategy<usize> {
+    if len == 0 {
+        return Just(0usize).boxed();
+    }
+    let chunks = (len + 15) / 16;
+    prop_oneof![
+        3 => (0..chunks).prop_map(move |c| std::cmp::min(c * 16, len - 1)),
+        1 => Just(0usize),
+        1 => Just(len - 1),
+        3 => 0..len,
+    ]
+    .boxed()
+}
+
+#[derive(Clone, Debug)]
+enum Edit {
+    Replace(usize, char),
+    Insert(usize, char),
+    Delete(usize),
+    Append(char),
+    Prepend(char),
+    Upper,
+    Clear,
+    TruncTo(usize),
+}
+
+fn apply_edit(s: &str, e: &Edit) -> String {
+    let mut v: Vec<char> = s.chars().collect();
+    match e {
+        Edit::Replace(p, c) => {
+            if *p < v.len() {
+                v[*p] = *c;
+            }
+        }
+        Edit::Insert(p, c) => {
+            let p = std::cmp::min(*p, v.len());
+            v.insert(p, *c);
+        }
+        Edit::Delete(p) => {
+            if *p < v.len() {
+                v.remove(*p);
+            }
+        }
+        Edit::Append(c) => v.push(*c),
+        Edit::Prepend(c) => v.insert(0, *c),
+        Edit::Upper => {
+            v = v.iter().map(|c| c.to_ascii_uppercase()).collect();
+        }
+        Edit::Clear => v.clear(),
+        Edit::TruncTo(k) => v.truncate(*k),
+    }
+    v.into_iter().collect()
+}
+
+fn arb_edit(len: usize) -> BoxedStrategy<Edit> {
+    prop_oneof![
+        5 => (arb_pos(len), arb_char()).prop_map(|(p, c)| Edit::Replace(p, c)),
+        3 => (arb_pos(len + 1), arb_char()).prop_map(|(p, c)| Edit::Insert(p, c)),
+        2 => arb_pos(len).prop_map(Edit::Delete),
+        1 => arb_char().prop_map(Edit::Append),
+        1 => arb_char().prop_map(Edit::Prepend),
+        1 => Just(Edit::Upper),
+        1 => Just(Edit::Clear),
+        1 => (0..=len).prop_map(Edit::TruncTo),
+    ]
+    .boxed()
+}
+
+/// Strings offered to from_hex_string for n variables: the print of a generated table with 0, 1
+/// or 2 structured corruptions, single digits for tiny n, and arbitrary short text.
+pub fn arb_hex_input(n: usize) -> BoxedStrategy<String> {
+    let width = Tt::hex_width(n);
+    let printed = arb_tt(n).prop_map(|t| t.to_hex());
+    let one_edit = (arb_tt(n), arb_edit(width)).prop_map(|(t, e)| apply_edit(&t.to_hex(), &e));
+    let two_edits = (arb_tt(n), arb_edit(width), arb_edit(width))
+        .prop_map(|(t, e1, e2)| apply_edit(&apply_edit(&t.to_hex(), &e1), &e2));
+    let digits = vec((0u32..16).prop_map(|d| std::char::from_digit(d, 16).unwrap()), width)
+        .prop_map(|v| v.into_iter().collect::<String>());
+    let short = vec(arb_char(), 0..=std::cmp::min(width + 2, 6)).prop_map(|v| v.into_iter().collect::<String>());
+    prop_oneof![
+        3 => printed,
+        6 => one_edit,
+        2 => two_edits,
+        2 => digits,
+        2 => short,
+    ]
+    .boxed()
+}
